@@ -176,19 +176,10 @@ def key_function_sites(ctx, only=None):
                 bool(looks),
                 f"`{short(e.arg, 60)}` builds a key element without the per-position selector: type-valued arguments at that position are keyed by their metaclass",
             )
-        rw = A.rewriter(repo)
-        vc = rw.methods.get("visit_Call")
-        ctx.require(vc is not None, "rewriter lost visit_Call")
-        ctx.touch(vc)
-        uses = [c for c in ast.walk(vc.node) if isinstance(c, ast.Call) and isinstance(c.func, ast.Attribute) and c.func.attr == sel.name]
+        from .rewriter import law_key_functions
+
+        law_key_functions(ctx)
         n += 1
-        ctx.ob(
-            f"{vc.key}:key-selector",
-            vc.loc(uses[0]) if uses else vc.loc(),
-            "rewritten call sites choose the key function per position through the same selector",
-            bool(uses),
-            "the rewriter no longer asks the per-position selector: recurse/call_next key type-valued arguments differently from the entry point",
-        )
     # methods of the function class that subscript the table with a key built from their arguments
     oc = A.function_class(repo)
     for m in oc.methods.values():
